@@ -1123,6 +1123,10 @@ func c13R5(p *Prog, r *Report) {
 				}
 				return true
 			})
+			if msg := candidatesStayDistinct(info, fs, counter); msg != "" {
+				r.Bad(site, pos, "allocator loop: "+msg+": two counter values can yield the same candidate, so the loop may never find a free name")
+				return true
+			}
 			if hasRet && usesCounter && fs.Post != nil {
 				r.OK(site, pos, "audited allocator loop: "+why)
 				r.Tables = append(r.Tables, "C13.R5 "+fi.Name()+" — "+why)
@@ -1133,6 +1137,67 @@ func c13R5(p *Prog, r *Report) {
 		})
 	}
 	dirtyObligations(p, r)
+}
+
+// candidatesStayDistinct: inside an allocator loop the string candidates declared in
+// the body are only initialised (:=) and extended with `+= fmt.Sprint(counter)` (or
+// strconv.Itoa / Sprintf of the counter); they are never re-assigned, sliced or
+// otherwise shortened — base+decimal(counter) is injective in the counter.
+func candidatesStayDistinct(info *types.Info, fs *ast.ForStmt, counter types.Object) string {
+	cands := map[types.Object]bool{}
+	ast.Inspect(fs.Body, func(m ast.Node) bool {
+		if as, ok := m.(*ast.AssignStmt); ok && as.Tok == token.DEFINE {
+			for _, l := range as.Lhs {
+				if id, ok := l.(*ast.Ident); ok {
+					if o := info.ObjectOf(id); o != nil {
+						if b, ok := o.Type().Underlying().(*types.Basic); ok && b.Info()&types.IsString != 0 {
+							cands[o] = true
+						}
+					}
+				}
+			}
+		}
+		return true
+	})
+	msg := ""
+	mentionsCounter := func(e ast.Expr) bool { return counter != nil && refersTo(info, e, counter) }
+	ast.Inspect(fs.Body, func(m ast.Node) bool {
+		switch x := m.(type) {
+		case *ast.SliceExpr:
+			if t := info.TypeOf(x.X); t != nil {
+				if b, ok := t.Underlying().(*types.Basic); ok && b.Info()&types.IsString != 0 {
+					msg = "a candidate name is shortened by slicing (" + exprString(x) + ")"
+				}
+			}
+		case *ast.AssignStmt:
+			if x.Tok == token.DEFINE {
+				return true
+			}
+			for i, l := range x.Lhs {
+				id, ok := ast.Unparen(l).(*ast.Ident)
+				if !ok || !cands[info.ObjectOf(id)] {
+					continue
+				}
+				okExt := false
+				if x.Tok == token.ADD_ASSIGN && i < len(x.Rhs) {
+					if call, ok := ast.Unparen(x.Rhs[i]).(*ast.CallExpr); ok {
+						if fn, ok := calleeObj(info, call).(*types.Func); ok && (isFunc(fn, "fmt", "", "Sprint") || isFunc(fn, "fmt", "", "Sprintf") || isFunc(fn, "strconv", "", "Itoa")) {
+							for _, a := range call.Args {
+								if mentionsCounter(a) {
+									okExt = true
+								}
+							}
+						}
+					}
+				}
+				if !okExt {
+					msg = "candidate " + id.Name + " is re-assigned by `" + exprString(l) + " " + x.Tok.String() + " …` other than appending the counter"
+				}
+			}
+		}
+		return true
+	})
+	return msg
 }
 
 // dirtyObligations: every store of `true` into generatedMethod.Dirty.
